@@ -172,3 +172,30 @@ def execute(w, scenarios, workers=6, timeout=1500, race=False, tag='prog', env=N
 def judge(chk, w, recs_path, nrecs, name='progmon'):
     return vlib.judge(chk, w.root + '/tlc', name, 'ProgMon', 'ProgMon.cfg', 'prog_records.ndjson', recs_path,
                       'prog_verdict.json', nrecs=nrecs, timeout=2400)
+
+
+def diamond_scenarios(rng, n, first_id):
+    """r1; r2 = f(r1); r3 = g(r2); r4 = join(r1, r3) over 4 shards, in a session that must start three more machines
+    for r4: the new machines receive the invocations r1..r4 from the executor and must get them in dependency order."""
+    out = []
+    for k in range(n):
+        g1 = Gen(rng)
+        a = g1.add(N('const', nshard=1, rows=rows(rng, 6, 4)), 'eo', 1)
+        p1 = {'nodes': g1.nodes, 'out': a, 'taps': []}
+
+        def over(argkinds, build):
+            g = Gen(rng, nargs=len(argkinds), argkinds=argkinds)
+            args = [g.add(N('arg', arg=x), argkinds[x][0], argkinds[x][1]) for x in range(len(argkinds))]
+            return {'nodes': g.nodes, 'out': build(g, args), 'taps': []}
+        p2 = over([('eo', 1)], lambda g, xs: g.add(N('map', **{'in': [xs[0]]}, f='inc'), 'eo', 1))
+        p3 = over([('eo', 1)], lambda g, xs: g.add(N('map', **{'in': [xs[0]]}, f='kmod'), 'eo', 1))
+
+        def join(g, xs):
+            c = g.add(N('cogroup', **{'in': xs}), 'bag', 1)
+            r_ = g.add(N('reshard', **{'in': [c]}, n=4), 'bag', 4)
+            return g.add(N('map', **{'in': [r_]}, f='inc'), 'bag', 4)
+        p4 = over([('eo', 1), ('eo', 1)], join)
+        steps = [step_run('r1', p1), step_run('r2', p2, ['r1']), step_run('r3', p3, ['r2']),
+                 step_run('r4', p4, ['r1', 'r3']), step_scan('r4')]
+        out.append(scenario(first_id + k, steps, exec_='bigmachine', parallelism=4, machprocs=1, timeout_s=60))
+    return out
